@@ -9,7 +9,7 @@ from . import trajgen as G
 RULE = ("trajectories whose altitude segments are constant, linear or well-conditioned cubic (cubic coefficient >= 5% of the "
         "larger of the quadratic and linear ones), 1..7 segments, scales {1,2,10}; parameter triples: ascent from 0 to above the "
         "highest altitude (never reached), speeds and accelerations incl. infinite acceleration and every invalid combination "
-        "(negative, zero, NaN, infinite). Non-trivial = a crossing exists and the parameters are valid.")
+        "(negative, zero, NaN, infinite); a class of segments that overshoot the target and end exactly on it (finding D20). Non-trivial = a crossing exists and the parameters are valid.")
 EXPLANATION = ("invalid parameters / no crossing: infinity on both interfaces; otherwise earliest_above within the certified box "
                "[S + a d, S + b d] widened by 1% of the segment duration for cubic segments (float Cardano) or 1e-5 relative otherwise; "
                "takeoff = earliest - travel time (travel time modelled bit-exactly); the statistics interface equals the proposal")
@@ -44,6 +44,26 @@ def cases(rng, tier):
             v = rng.choice([2.0, 1.0, 500.0, f32(rng.uniform(0.1, 3000))] + ([0.0, -1.0, float("nan"), float("inf")] if rng.random() < 0.15 else []))
             a = rng.choice([4.0, 1.0, float("inf"), 2000.0, f32(rng.uniform(0.1, 5000))] + ([0.0, -2.0, float("nan")] if rng.random() < 0.15 else []))
             yield ("stats takeoff %s %s %s %s" % (b, fhex(h), fhex(v), fhex(a)), "gen")
+    # aimed: a segment whose altitude reaches the target inside it AND ends exactly on it (overshoot that settles on
+    # the takeoff altitude): quadratic profiles z0 + h((1+r)/r u - u^2/r), r the parameter of the first crossing,
+    # stored as cubics with integer control points
+    for i in range(n // 15):
+        scale = rng.choice([1, 1, 2])
+        z0 = rng.randint(0, 100)
+        hq = 9 * rng.randint(20, 400)               # stored units
+        r = rng.choice([(1, 4), (1, 2), (3, 4)])
+        bq = hq * (r[1] + r[0]) // r[0]             # h (1 + r) / r
+        z1, z2, z3 = z0 + bq // 3, z0 + (bq + hq) // 3, z0 + hq
+        if max(z1, z2, z3) > 32767:
+            continue
+        segs = []
+        if rng.random() < 0.5:
+            segs.append(dict(dur=rng.choice([1000, 4000]), x=[rng.randint(-500, 500)], y=[], z=[], yaw=[]))
+        segs.append(dict(dur=rng.choice([2000, 10000, 30000]), x=[], y=[], z=[z1, z2, z3], yaw=[]))
+        segs.append(dict(dur=5000, x=[], y=[], z=[z3 + 2000], yaw=[]))
+        tr = dict(scale=scale, use_yaw=False, start=[0, 0, z0, 0], segs=segs)
+        yield ("stats takeoff %s %s %s %s" % (hexs(G.encode(tr)), fhex(float(hq * scale)), fhex(rng.choice([1000.0, 2.0e6])), fhex(rng.choice([float("inf"), 1.0e6]))),
+               "ends-on-target")
 
 
 def _f(x):
@@ -113,6 +133,13 @@ def compare(case, om, oi):
         return "impl reports the altitude reached at %s where the exact altitude is %s (target %s); first certified crossing at [%s, %s]" % (
             float(e), float(z_at), float(target), float(Elo), float(Ehi))
     if not (Elo - tolE <= e <= Ehi + tolE):
+        # D20: the value is also taken exactly at the end of the segment and that end is reported instead of the first crossing
+        if abs(e - (S0 + d)) <= tolE and e > Ehi:
+            w = case.split(" ")
+            bts = bytes.fromhex(w[2])
+            z0 = Fraction(int.from_bytes(bts[5:7], "little", signed=True) * (bts[0] & 0x7f))
+            if G.altitude_at(list(bts), S0 + d) == z0 + _f(w[3]):
+                return "D20: the altitude is reached inside the segment at [%s, %s] and again exactly at its end; the end %s is reported" % (float(Elo), float(Ehi), float(e))
         if near_end:
             return "D16: crossing within 0.3%% of a cubic segment's end is misplaced (model %s, impl %s)" % (m[0][:60], float(e))
         return "earliest crossing impl=%s certified [%s, %s] tol %s (degree %d)" % (float(e), float(Elo), float(Ehi), float(tolE), deg)
@@ -128,6 +155,8 @@ def compare(case, om, oi):
 
 
 def finding_key(case, om, oi, d):
+    if d.startswith("D20:"):
+        return "D20 crossing-inside-and-exactly-at-segment-end"
     return "D16 cubic-crossing-near-segment-end" if d.startswith("D16:") else d
 
 
